@@ -69,11 +69,11 @@ theorem reported_true {basis : Tree} {w : WT} {sel : Option (List Path)} {cs : L
   cases sel with
   | none =>
     have : cs = changesOf basis w.inv := by
-      simp [reportedChanges, iterChanges] at h; exact h.symm
+      simp [reportedChanges, iterChangesG] at h; exact h.symm
     subst this
     exact changesOf_true hc
   | some f =>
-    exact changesOf_true (filter_subset .generic basis w.inv f true cs h c hc)
+    exact changesOf_true ((filter_subset_complete_g true .generic basis w.inv f true cs h).1 c hc)
 
 /-- ids at or below the selected paths in either tree (`none` selects everything) -/
 def pathSelected (basis : Tree) (w : WT) (sel : Option (List Path)) (i : Id) : Prop :=
@@ -88,11 +88,11 @@ theorem reported_complete {basis : Tree} {w : WT} {sel : Option (List Path)} {cs
   cases sel with
   | none =>
     have : cs = changesOf basis w.inv := by
-      simp [reportedChanges, iterChanges] at h; exact h.symm
+      simp [reportedChanges, iterChangesG] at h; exact h.symm
     subst this
     exact mem_changesOf hc hch
   | some f =>
-    exact filter_complete .generic basis w.inv f true cs h i hs c hc hch
+    exact (filter_subset_complete_g true .generic basis w.inv f true cs h).2 i hs c hc hch
 
 theorem change_srcPath {src tgt : Tree} {i : Id} {c : Change} (h : change src tgt i = some c) :
     c.srcPath = (if (get src i).isSome then pathOf src i else none) ∧
@@ -190,5 +190,50 @@ theorem glookup_written (wt : GTree) (l : List Path) (p : Path) :
         simp only [glookup, hp, if_false]
         rw [ih]
         simp [this]
+
+/-- the reported change list names every working-tree path whose content differs
+from the basis as the new path of some record -/
+def gCovers (basis wt : GTree) (cs : List GChange) : Bool :=
+  wt.all fun x => glookup basis x.1 == glookup wt x.1 || cs.any fun c => c.new == some x.1
+
+/-- a record's old path is gone from the working tree unless the record stays
+at that path (what a rename / removal / modification record means) -/
+def gCoherent (wt : GTree) (cs : List GChange) : Bool :=
+  cs.all fun c => match c.old with
+    | none => true
+    | some p => c.new == some p || (glookup wt p).isNone
+
+theorem glookup_mem {t : GTree} {p : Path} {n : Node} (h : glookup t p = some n) : ∃ x ∈ t, x.1 = p := by
+  induction t with
+  | nil => simp [glookup] at h
+  | cons x rest ih =>
+    obtain ⟨q, m⟩ := x
+    by_cases hq : q = p
+    · exact ⟨(q, m), by simp, hq⟩
+    · simp [glookup, hq] at h
+      obtain ⟨y, hy, hyp⟩ := ih h
+      exact ⟨y, List.mem_cons_of_mem _ hy, hyp⟩
+
+theorem mem_gWritten {wt : GTree} {kept : List GChange} {c : GChange} {p : Path} (hc : c ∈ kept)
+    (hn : c.new = some p) (hp : (glookup wt p).isSome = true) : p ∈ gWritten wt kept := by
+  unfold gWritten
+  rw [List.mem_filterMap]
+  exact ⟨c, hc, by simp [hn, hp]⟩
+
+theorem mem_gWritten_iff {wt : GTree} {kept : List GChange} {p : Path} :
+    p ∈ gWritten wt kept ↔ (∃ c ∈ kept, c.new = some p) ∧ (glookup wt p).isSome = true := by
+  unfold gWritten
+  rw [List.mem_filterMap]
+  constructor
+  · rintro ⟨c, hc, h⟩
+    cases hn : c.new with
+    | none => simp [hn] at h
+    | some q =>
+      simp only [hn, Option.bind_some] at h
+      split at h
+      · rename_i hq; simp at h; subst h; exact ⟨⟨c, hc, hn⟩, hq⟩
+      · cases h
+  · rintro ⟨⟨c, hc, hn⟩, hp⟩
+    exact ⟨c, hc, by simp [hn, hp]⟩
 
 end BreezyVerif.C01
